@@ -69,7 +69,10 @@ func dmParse(text string) dmDiagram {
 			continue
 		case cur != "" && reDmField.MatchString(l):
 			m := reDmField.FindStringSubmatch(l)
-			d.Fields = append(d.Fields, []string{cur, m[2], m[3]})
+			// the type as shown: emphasis and key stereotypes are presentation
+			ty := strings.ReplaceAll(m[3], "**", "")
+			ty = strings.TrimSpace(regexp.MustCompile(`\s*<<[A-Z]+>>\s*$`).ReplaceAllString(ty, ""))
+			d.Fields = append(d.Fields, []string{cur, m[2], ty})
 		case cur == "" && reDmEdge.MatchString(l):
 			m := reDmEdge.FindStringSubmatch(l)
 			from, ok1 := alias[m[1]]
@@ -85,6 +88,31 @@ func dmParse(text string) dmDiagram {
 		}
 	}
 	return d
+}
+
+// dmLabelParts describes the declared type of a field: the collection it is wrapped in ("", Set, Sequence, List) and
+// the primitive name or the reference as written from the field's application (Type, Type.field, Other.Type).
+func dmLabelParts(t *sysl.Type, app string) (wrap, base string) {
+	switch x := t.GetType().(type) {
+	case *sysl.Type_Set:
+		wrap, t = "Set", x.Set
+	case *sysl.Type_Sequence:
+		wrap, t = "Sequence", x.Sequence
+	case *sysl.Type_List_:
+		wrap, t = "List", x.List.GetType()
+	}
+	switch x := t.GetType().(type) {
+	case *sysl.Type_Primitive_:
+		return wrap, strings.ToLower(x.Primitive.String())
+	case *sysl.Type_TypeRef:
+		ref := x.TypeRef.GetRef()
+		parts := ref.GetPath()
+		if ref.GetAppname() != nil && len(ref.GetAppname().GetPart()) > 0 && project.AppName(ref.GetAppname()) != app {
+			parts = append([]string{project.AppName(ref.GetAppname())}, parts...)
+		}
+		return wrap, strings.Join(parts, ".")
+	}
+	return wrap, "?"
 }
 
 // dmModel lists the types of one application ([label, kind]) and the fields of its tuples and
@@ -153,7 +181,8 @@ func dmModel(m *sysl.Module, app string) (types [][]string, fields [][]string) {
 		sort.Strings(fns)
 		for _, f := range fns {
 			_, isTuple := t.GetType().(*sysl.Type_Tuple_)
-			fields = append(fields, []string{label, f, target(defs[f], isTuple)})
+			wrap, base := dmLabelParts(defs[f], app)
+			fields = append(fields, []string{label, f, target(defs[f], isTuple), wrap, base})
 		}
 	}
 	return types, fields
